@@ -376,12 +376,12 @@ pub fn run_c09(ctx: &Ctx) {
     let c = StreamCfg { mix: Mix { fixed: 1, v9: 8, ipfix: 1 }, ..super::c04::cfg(ctx.thorough()) };
     ctx.search(
         "strict-lossless",
-        ctx.n(100_000, 3_000_000),
+        ctx.n(200_000, 20_000_000),
         &move || with_strict(gen::conformant_case_lossless(c, LOSSLESS)),
         &oracle_c09,
     );
-    ctx.search("wide", ctx.n(60_000, 1_500_000), &move || gen::conformant_case(c, BuildOpts::WIDE), &oracle_c09);
-    ctx.search("hostile", ctx.n(100_000, 3_000_000), &gen::hostile_case, &oracle_c09);
+    ctx.search("wide", ctx.n(120_000, 10_000_000), &move || gen::conformant_case(c, BuildOpts::WIDE), &oracle_c09);
+    ctx.search("hostile", ctx.n(200_000, 20_000_000), &gen::hostile_case, &oracle_c09);
 }
 
 pub fn run_c10(ctx: &Ctx) {
@@ -389,10 +389,10 @@ pub fn run_c10(ctx: &Ctx) {
     let c = StreamCfg { mix: Mix { fixed: 1, v9: 1, ipfix: 8 }, ..super::c05::cfg(ctx.thorough()) };
     ctx.search(
         "strict-lossless",
-        ctx.n(100_000, 3_000_000),
+        ctx.n(200_000, 20_000_000),
         &move || with_strict(gen::conformant_case_lossless(c, LOSSLESS)),
         &oracle_c10,
     );
-    ctx.search("wide", ctx.n(60_000, 1_500_000), &move || gen::conformant_case(c, BuildOpts::WIDE), &oracle_c10);
-    ctx.search("hostile", ctx.n(100_000, 3_000_000), &gen::hostile_case, &oracle_c10);
+    ctx.search("wide", ctx.n(120_000, 10_000_000), &move || gen::conformant_case(c, BuildOpts::WIDE), &oracle_c10);
+    ctx.search("hostile", ctx.n(200_000, 20_000_000), &gen::hostile_case, &oracle_c10);
 }
